@@ -18,14 +18,20 @@ def outcome(f):
 
 
 def run(op, a):
-    if op == 1:
+    if op in (1, 2):
         template, secrets, m, tv, idx, hts, tv2, idx2, wrongkey = a[:9]
         keys = [CBitcoinSecret.from_secret_bytes(s[:32], bool(s[32] & 1) if len(s) > 32 else True) for s in secrets]
-        signers = keys[:max(m, 1)]
-        if wrongkey:
+        if op == 2:
+            # signer plan: a[8] = [nk, [key index per signature slot]]; the first nk keys are the script's
+            nk, plan = wrongkey
+            signers = [keys[i] for i in plan]
+            pubs = [k.pub for k in keys[:nk]]
+        elif wrongkey:
             # sign with keys that are not in the scriptPubKey
+            signers = keys[:max(m, 1)]
             pubs = [k.pub for k in keys[len(signers):]] or [keys[-1].pub]
         else:
+            signers = keys[:max(m, 1)]
             pubs = [k.pub for k in keys]
         if template == 0:
             inner = CScript([pubs[0], OP_CHECKSIG])
